@@ -2,9 +2,10 @@ import FitModel.FileDef
 /-! Model of `filedef.Listener` (/repo/profile/filedef/listener.go) as a transition system (C14, second half).
 
 Two threads: the **producer** (the goroutine that calls `OnMesg` / `File` / `Close` / `Reset`: the decoder) and the
-**worker** (`loop`, started by `reset()`). Shared state: `poolc` (buffered channel of field slices, capacity N =
-`options.channelBuffer`), `mesgc` (buffered channel of messages, capacity N), `done` (closed by the worker when it
-leaves `loop`), the cell `l.file`, the flag `l.active`, and the memory of the pooled slices.
+**worker** (`loop`, started by `reset()`). Shared state: `poolc` (buffered channel of field slices, capacity
+P = `cap(l.poolc)` = max(N, 1) where N = `options.channelBuffer`), `mesgc` (channel of messages, capacity N: buffered for
+N ≥ 1, **unbuffered for N = 0**), `done` (closed by the worker when it leaves `loop`), the cell `l.file`, the flag
+`l.active`, and the memory of the pooled slices.
 
 Every pooled slice has an identity (`Nat` token); `mem t` is what the slice currently holds. A message travels through
 `mesgc` as its token: the worker reads the message *through the slice* (`mem`), so a slice that is handed back or
@@ -12,16 +13,23 @@ overwritten too early shows up as a wrong file. (Reallocation by `append` when a
 token a new backing array; ownership of the token is what matters.)
 
 Channel semantics (Go spec): a send on a buffered channel proceeds iff the buffer is not full, a receive proceeds iff
-the buffer is not empty; a receive on a closed empty channel proceeds (the worker's `range` ends); a receive from a nil
-channel or from an empty channel nobody sends on blocks forever. With N = 0 `poolc` is nil (or unbuffered and empty):
-the model's `pool` is then the empty list with capacity 0 and the first `OnMesg` blocks at `onTake` — the deadlock of
-known finding KF-C14-1 (F15). Sends on the capacity-0 channels are never reached in that case (proved: `KF_C14_buffer0`).
+the buffer is not empty; a receive on a closed empty channel proceeds (the worker's `range` ends); a send on an
+**unbuffered** channel proceeds iff a receiver is waiting, and then both move at once (rendezvous: the `onSend` step
+with N = 0 requires the worker at `recv` and hands the slice straight into the worker's hands, `c := proc t`; nothing is
+ever queued); a receive from an empty channel nobody sends on blocks forever.
+
+Buffer size 0 (`WithChannelBuffer(0)`), after the repair of known finding KF-C14-1 (F15): `Reset` sizes the pool as
+`max(channelBuffer, 1)` and re-makes it whenever `cap(l.poolc)` differs from that (a nil channel has capacity 0, so the
+first `Reset`, made by `NewListener`, always allocates); `Close` cycles `cap(l.poolc)` slices. So with N = 0 exactly one
+slice circulates: `OnMesg` takes it (waiting until the worker has returned it), hands the message over synchronously,
+and the worker's `l.poolc <- mesg.Fields` finds the one-slot pool empty. (Before the repair the pool had capacity N = 0
+/ was nil and the first `OnMesg` blocked forever.)
 
 Code ↔ steps
 * `OnMesg`:  `if !l.active { l.reset() }` (in the `idle` fetch step) · `<-l.poolc` + copy (`onTake`) · `l.mesgc <- mesg` (`onSend`)
-* `Close`:   `if !l.active return` · `close(l.mesgc)` (fetch step) · N × [`<-l.poolc`, clear (`closing`) · `l.poolc <-` (`closingPut`)] ·
+* `Close`:   `if !l.active return` · `close(l.mesgc)` (fetch step) · P × [`<-l.poolc`, clear (`closing`) · `l.poolc <-` (`closingPut`)] ·
              `<-l.done`; `l.active = false` (`closeWait`)
-* `File` = Close, then read `l.file`;  `Reset(WithChannelBuffer n)` = Close, re-make `poolc` if n changed, `reset()`
+* `File` = Close, then read `l.file`;  `Reset(WithChannelBuffer n)` = Close, re-make `poolc` if `cap(l.poolc) ≠ max(n, 1)`, `reset()`
 * `loop`:    `range l.mesgc` (`recv`, or exit + `close(l.done)`) · `processMesg` (`proc`) · `l.poolc <- mesg.Fields` (`ret`) -/
 namespace Fit.Listener
 
@@ -63,7 +71,10 @@ structure St (M σ : Type) where
   script : List (Cmd M)
   p : PC M
   c : WC
+  /-- `l.options.channelBuffer` = capacity of `mesgc` (0 = unbuffered) -/
   N : Nat
+  /-- `cap(l.poolc)` -/
+  P : Nat
   pool : List Nat
   queue : List Nat
   mem : Nat → Option M
@@ -89,11 +100,15 @@ def procO (f : σ) : Option M → σ
 def respawn (s : St M σ) : St M σ :=
   { s with file := init, queue := [], closed := false, done := false, active := true, c := .recv }
 
-/-- the part of `Reset` that re-makes `poolc` when the buffer size changes: as many of the old slices as fit, then nil slices -/
+/-- `poolSize := max(l.options.channelBuffer, 1)` -/
+def poolSize (n : Nat) : Nat := max n 1
+
+/-- the part of `Reset` that takes the new options (`channelBuffer := n`) and re-makes `poolc` when its capacity is not
+the pool size wanted: as many of the old slices as fit, then nil slices -/
 def resize (s : St M σ) (n : Nat) : St M σ :=
-  if n = s.N then s else
-    { s with pool := s.pool.take n ++ List.range' s.nextId (n - s.pool.length),
-             nextId := s.nextId + (n - s.pool.length), N := n }
+  if poolSize n = s.P then { s with N := n } else
+    { s with pool := s.pool.take (poolSize n) ++ List.range' s.nextId (poolSize n - s.pool.length),
+             nextId := s.nextId + (poolSize n - s.pool.length), N := n, P := poolSize n }
 
 /-- end of `Close()` (`l.active = false`) and the rest of the call that began with it -/
 def finishClose (a : After) (s : St M σ) : St M σ :=
@@ -105,7 +120,7 @@ def finishClose (a : After) (s : St M σ) : St M σ :=
 
 /-- beginning of `Close()` -/
 def startClose (a : After) (s : St M σ) : St M σ :=
-  if s.active then { s with closed := true, p := if s.N = 0 then .closeWait a else .closing 0 a }
+  if s.active then { s with closed := true, p := if s.P = 0 then .closeWait a else .closing 0 a }
   else finishClose init a s
 
 /-- one step of the producer, if it is not blocked -/
@@ -125,19 +140,24 @@ def stepP (s : St M σ) : Option (St M σ) :=
     | [] => none
     | t :: pool' => some { s with pool := pool', mem := update s.mem t (some m), p := .onSend m t }
   | .onSend _ t =>
-    if s.queue.length < s.N then some { s with queue := s.queue ++ [t], p := .idle } else none
+    if s.queue.length < s.N then some { s with queue := s.queue ++ [t], p := .idle }
+    else if s.N = 0 ∧ s.c = .recv then
+      -- unbuffered `mesgc`: the send proceeds only together with the worker's receive (rendezvous)
+      some { s with p := .idle, c := .proc t }
+    else none
   | .closing k a =>
     match s.pool with
     | [] => none
     | t :: pool' => some { s with pool := pool', mem := update s.mem t none, p := .closingPut k t a }
   | .closingPut k t a =>
-    if s.pool.length < s.N then
-      some { s with pool := s.pool ++ [t], p := if k + 1 < s.N then .closing (k + 1) a else .closeWait a }
+    if s.pool.length < s.P then
+      some { s with pool := s.pool ++ [t], p := if k + 1 < s.P then .closing (k + 1) a else .closeWait a }
     else none
   | .closeWait a => if s.done then some (finishClose init a s) else none
   | .fin => none
 
-/-- one step of the worker, if it is not blocked -/
+/-- one step of the worker on its own, if it is not blocked (its receive from an unbuffered `mesgc` happens inside the
+producer's `onSend` step) -/
 def stepC (s : St M σ) : Option (St M σ) :=
   match s.c with
   | .recv =>
@@ -145,16 +165,17 @@ def stepC (s : St M σ) : Option (St M σ) :=
     | t :: q => some { s with queue := q, c := .proc t }
     | [] => if s.closed then some { s with done := true, c := .exited } else none
   | .proc t => some { s with file := procO proc s.file (s.mem t), c := .ret t }
-  | .ret t => if s.pool.length < s.N then some { s with pool := s.pool ++ [t], c := .recv } else none
+  | .ret t => if s.pool.length < s.P then some { s with pool := s.pool ++ [t], c := .recv } else none
   | .exited => none
 
 /-- the transition relation: any enabled thread may move (every interleaving) -/
 def Step (s s' : St M σ) : Prop := stepP init s = some s' ∨ stepC proc s = some s'
 
-/-- state right after `NewListener(WithChannelBuffer(N))` -/
+/-- state right after `NewListener(WithChannelBuffer(N))` (= `Reset` of the zero Listener: `poolc` is nil, capacity 0 ≠
+`poolSize N`, so the pool is made with `poolSize N` nil slices; `reset()` starts the worker) -/
 def initSt (N : Nat) (script : List (Cmd M)) : St M σ :=
-  { script, p := .idle, c := .recv, N, pool := List.range N, queue := [], mem := fun _ => none,
-    closed := false, done := false, active := true, file := init, results := [], nextId := N }
+  { script, p := .idle, c := .recv, N, P := poolSize N, pool := List.range (poolSize N), queue := [], mem := fun _ => none,
+    closed := false, done := false, active := true, file := init, results := [], nextId := poolSize N }
 
 inductive Reachable (N : Nat) (script : List (Cmd M)) : St M σ → Prop where
   | init : Reachable N script (initSt init N script)
